@@ -66,8 +66,12 @@ def make_curve(desc, scale, rot=0):
     return Path(*segs)
 
 
+DENSE = False
+
+
 def s_alphabet(curve, L):
-    vals = [0.0, L, L * 2.0 ** -30, L / 7, L / 3, L / 2, 0.9 * L, L * (1 - 2.0 ** -52), L * (1 - 1e-9),
+    vals = [L * k / 32.0 for k in range(33)] if DENSE else []
+    vals += [0.0, L, L * 2.0 ** -30, L / 7, L / 3, L / 2, 0.9 * L, L * (1 - 2.0 ** -52), L * (1 - 1e-9),
             math.nextafter(0.0, 1.0), L * 1e-9]
     if isinstance(curve, Path):
         acc = 0.0
@@ -269,10 +273,13 @@ def shards(tier, seed):
     out += [{'what': 'sequences', 'curve': d, 'scale': sc} for d in SHAPES + [list(p) for p in PATHS]
             for sc in ([1.0] if tier == 'quick' else [1.0, 1e-2, 1e3])]
     out += [{'what': 'mutation', 'mi': i} for i in range(len(MUTATIONS))]
+    out += AB.provenance_shards(out, tier, lambda d: 'what' not in d and isinstance(d['curve'], str) and d['scale'] == 1.0 and d['rot'] == 0)
     return out
 
 
 def run_shard(desc, tier, seed):
+    global DENSE
+    DENSE = tier == 'thorough'
     acc = core.Acc()
     if desc.get('what') == 'mutation':
         check_after_mutation(desc['mi'], acc)
